@@ -12,6 +12,7 @@ import (
 	"strings"
 	"sync"
 	"sync/atomic"
+	"syscall"
 	"time"
 )
 
@@ -135,6 +136,75 @@ var (
 	vResProto string
 	vResPort  string
 )
+
+// observation sockets of the resolver streams (udp rotations): every candidate backend address is bound, so that
+// WHO RECEIVES a dispatch can be observed on the wire, not only the rotation's internal lists
+var vResObs = map[string]*net.UDPConn{}
+
+func vResObsClose() {
+	for k, c := range vResObs {
+		c.Close()
+		delete(vResObs, k)
+	}
+}
+
+func vResObsBind(ports []string) string {
+	vResObsClose()
+	for _, port := range ports {
+		pn, _ := strconv.Atoi(port)
+		for i := 1; i <= 5; i++ {
+			addr := &net.UDPAddr{IP: net.IPv4(127, 0, 1, byte(i)), Port: pn}
+			c, err := net.ListenUDP("udp", addr)
+			if err != nil {
+				vResObsClose()
+				return "bind-error"
+			}
+			vResObs[addr.String()] = c
+		}
+	}
+	return "ok"
+}
+
+// dispatch one full round (as many messages as the rotation has members) and report which addresses received
+// how many of them; a full round leaves the cursor where it was
+func vResDispatchRound() string {
+	vRR.Lock()
+	n := len(vRR.backends)
+	vRR.Unlock()
+	for i := 0; i < n; i++ {
+		m, _ := NewRequest("OPTIONS", "sip:probe@svc.test", "SIP/2.0")
+		m.AddHeader("Call-ID", "res-disp-"+strconv.Itoa(i))
+		vRR.Send(m)
+	}
+	var got []string
+	buf := make([]byte, 4096)
+	for addr, c := range vResObs {
+		cnt := 0
+		if rc, err := c.SyscallConn(); err == nil {
+			for {
+				k := -1
+				rc.Read(func(fd uintptr) bool {
+					x, _, e := syscall.Recvfrom(int(fd), buf, syscall.MSG_DONTWAIT)
+					if e == nil {
+						k = x
+					}
+					return true
+				})
+				if k < 0 {
+					break
+				}
+				cnt++
+			}
+		}
+		if cnt == 1 {
+			got = append(got, hx(addr))
+		} else if cnt > 1 {
+			got = append(got, hx(addr)+"*"+strconv.Itoa(cnt))
+		}
+	}
+	sort.Strings(got)
+	return "recv=[" + strings.Join(got, ",") + "]"
+}
 
 // ---------------------------------------------------------------- pins with a virtual clock
 // The logic of DialogBasedBackend only compares stored instants with time.Now(); letting D of
@@ -292,6 +362,12 @@ func init() {
 	// ---- resolver -> rotation ----
 	vReg("res new", func(a []string) string {
 		vResProto, vResPort = a[0], a[1]
+		vResObsClose()
+		if vResProto == "udp" {
+			if r := vResObsBind([]string{vResPort}); r != "ok" {
+				return r
+			}
+		}
 		vRR = NewRoundRobinBackend()
 		vRRSink = nil
 		vRRIndex = &vChangeListener{index: map[string]bool{}}
@@ -336,8 +412,24 @@ func init() {
 			vRR.Close()
 		}
 		var addrs []string
+		var ports []string
 		for _, hp := range a[2:] {
 			addrs = append(addrs, a[0]+"://"+unhx(hp))
+			if _, p, err := net.SplitHostPort(unhx(hp)); err == nil {
+				dup := false
+				for _, q := range ports {
+					dup = dup || q == p
+				}
+				if !dup {
+					ports = append(ports, p)
+				}
+			}
+		}
+		vResObsClose()
+		if a[0] == "udp" {
+			if r := vResObsBind(ports); r != "ok" {
+				return r
+			}
 		}
 		rr, err := CreateRoundRobinBackend("127.0.0.1:0", addrs, func(conn net.Conn) {})
 		if err != nil {
@@ -368,8 +460,11 @@ func init() {
 		if vRR != nil {
 			vRR.Close()
 		}
+		vResObsClose()
 		return "ok"
 	})
+	vReg("res disp", func(a []string) string { return vResDispatchRound() })
+	vReg("res2 disp", func(a []string) string { return vResDispatchRound() })
 
 	// ---- pins ----
 	vReg("pins new", func(a []string) string {
